@@ -45,6 +45,17 @@ fn extensions() -> Extensions {
     ext
 }
 
+/// kvarn_testing picks a random port and panics if it is taken: try again a few times
+fn start_testing_server(rt: &tokio::runtime::Runtime) -> kvarn_testing::Server {
+    for _ in 0..6 {
+        if let Ok(s) = std::panic::catch_unwind(std::panic::AssertUnwindSafe(|| rt.block_on(kvarn_testing::ServerBuilder::new(extensions(), host::Options::default()).run()))) {
+            return s;
+        }
+        std::thread::sleep(std::time::Duration::from_millis(100));
+    }
+    rt.block_on(kvarn_testing::ServerBuilder::new(extensions(), host::Options::default()).run())
+}
+
 /// (method, path, headers, body)
 fn kind(k: &str) -> (&'static str, &'static str, Vec<(&'static str, &'static str)>, Option<Vec<u8>>) {
     match k {
@@ -84,7 +95,7 @@ pub struct Pair {
 impl Pair {
     pub fn new() -> Self {
         let rt = tokio::runtime::Builder::new_multi_thread().worker_threads(4).enable_all().build().unwrap();
-        let server = rt.block_on(kvarn_testing::ServerBuilder::new(extensions(), host::Options::default()).run());
+        let server = start_testing_server(&rt);
         // no connection reuse for the HTTP/1.1 client: kvarn closes a HTTP/1 connection after answering a request whose
         // body it did not read completely (F23) without announcing it, and a pooled connection would make the *next*
         // request fail in the client library; persistent connections are C08's subject, C20 compares answers per request
@@ -185,7 +196,7 @@ pub struct MuxStreams {
 impl MuxStreams {
     pub fn new() -> Self {
         let rt = tokio::runtime::Builder::new_multi_thread().worker_threads(4).enable_all().build().unwrap();
-        let server = rt.block_on(kvarn_testing::ServerBuilder::new(extensions(), host::Options::default()).run());
+        let server = start_testing_server(&rt);
         MuxStreams { rt, server }
     }
 }
